@@ -35,7 +35,7 @@ func runC10(c *Ctx, r *Report) {
 		k    int64
 	}{{"fromMultihash", 0}, {"fromJSON", 0}, {"fromEntryHash", 1}}
 	for _, ld := range loaders {
-		fn := p.Func("", "", ld.name)
+		fn := p.FuncI("", "", ld.name)
 		sf := p.SSAFunc(fn)
 		lp := NewLenProver(p, sf)
 		// the caller's limit: a load of *<param>.Length
@@ -140,7 +140,7 @@ func runC10(c *Ctx, r *Report) {
 		// trim: a first-party call (same package) with a slice argument whose result reaches a sink
 		for _, sk := range sinks {
 			for v := range backSlice(sk.v, nil) {
-				if call, ok := v.(*ssa.Call); ok {
+				if call, ok := v.(*ssa.Call); ok && call.Parent() == sf {
 					if cal := call.Call.StaticCallee(); cal != nil && cal.Pkg != nil && cal.Pkg.Pkg.Path() == p.Mod {
 						if _, isSlice := call.Type().Underlying().(*types.Slice); isSlice && calleeOf(call) != sortFn {
 							trimCall = call
@@ -185,7 +185,7 @@ func runC10(c *Ctx, r *Report) {
 	r.Doc("R-C10.4", "Fetcher.Fetch reaches processQueue on every path (the supplied starting entries are fetched for every limit, including 0)")
 	r.Doc("R-C10.5", "fromEntry trims to at least the number of supplied entries")
 	r.Doc("R-C10.6", "the fetch admission state (clock window, task cache) is only touched under the process mutex — the kept set does not depend on worker interleaving through torn updates")
-	fetch := p.Func("entry", "Fetcher", "Fetch")
+	fetch := p.FuncI("entry", "Fetcher", "Fetch")
 	ff := &Flow{P: p, Fn: fetch, Entry: Facts{}}
 	ff.Node = func(n ast.Node, f Facts) {
 		walkNoLit(n, func(nd ast.Node) bool {
@@ -215,7 +215,7 @@ func runC10(c *Ctx, r *Report) {
 		r.Check(ok, "R-C10.4", r.Key("R-C10.4", fetch, "exit", ""), pos, "the fetch loop runs before Fetch returns", "Fetch can return without running the fetch loop (e.g. for a limit of 0): loaders that rely on the fetcher to deliver the supplied entries (NewFromEntryHash keeps max(n,1)) then return fewer entries than min(max(n,k),size)")
 	})
 	// R-C10.5
-	fe := p.Func("", "", "fromEntry")
+	fe := p.FuncI("", "", "fromEntry")
 	sfe := p.SSAFunc(fe)
 	lpe := NewLenProver(p, sfe)
 	srcPar := sfe.Params[2]
